@@ -111,7 +111,22 @@ def chk_msg(case):
     return []
 
 
-CASES = {"msg": chk_msg}
+def chk_bad(case):
+    """a call that FAILS after partial progress (input index one past the end, a negative amount, a scriptCode that is not bytes):
+    no oracle of its own beyond "must not return a message" - it is history for the calls that follow"""
+    from bits.bips import bip143
+    import bits.tx as btx
+    T, amount, sc = build(case["seed"], case["n_in"], case["n_out"], 0, case["a"])
+    txins = [btx.txin(btx.outpoint(t, v), s, q) for t, v, s, q in T.ins]
+    txouts = [btx.txout(v, s) for v, s in T.outs]
+    idx, amt, sc_ = {"index": (len(txins), amount, sc), "amount": (0, -5, sc), "scriptcode": (0, amount, None)}[case["what"]]
+    got = call(bip143.witness_message, txins, idx, amt, sc_, txouts, version=T.version, locktime=T.locktime, sighash_flag=case["flag"])
+    if got[0] == "ok" and case["what"] == "index":
+        return [("C11/bad-index-accepted", f"witness_message returned a message for input index {idx} of {len(txins)} inputs")]
+    return []
+
+
+CASES = {"msg": chk_msg, "bad": chk_bad}
 
 
 def run_case(kind, case):
@@ -138,6 +153,11 @@ def seq_ops(job):
     for extra in ({"seq": "ffffffff"}, {"seq": "mixed"}, {"seq": "00000000"}, {"seq": "fffffffe", "amount": 546}):
         ops.append(("msg", {"seed": seed, "n_in": 2, "n_out": 2, "index": 0, "flag": 0x01, "a": dict(a0, **extra)}))
     ops.append(("msg", {"seed": seed, "n_in": 2, "n_out": 1, "index": 1, "flag": 0x01, "a": dict(a0, seq="mixed")}))
+    # calls that fail after partial progress, on a transaction other than the ones above and on one of them (then the retry with
+    # valid arguments is one of the operations above)
+    for what in ("index", "amount", "scriptcode"):
+        ops.append(("bad", {"seed": seed, "n_in": 3, "n_out": 1, "flag": 0x01, "what": what, "a": dict(a0)}))
+    ops.append(("bad", {"seed": seed, "n_in": 2, "n_out": 2, "flag": 0x01, "what": "index", "a": dict(a0, seq="mixed")}))
     return ops
 
 
